@@ -6,7 +6,7 @@ use crate::common::*;
 use rustradio::blocks::*;
 use rustradio::fir::Fir;
 use rustradio::graph::{Graph, GraphRunner};
-use rustradio::iir_filter::{Filter, IirFilter};
+use rustradio::iir_filter::{ClampedFilter, Filter, IirFilter};
 use rustradio::window::WindowType;
 use rustradio::{Complex, Float};
 use serde_json::{Value, json};
@@ -103,6 +103,21 @@ pub fn cmd_kernels(args: &[String]) -> i32 {
         match r {
             Ok(out) => emit(&mut o, json!({"ev": "iir", "taps": taps, "x": x, "fill": fill.unwrap_or(0), "filled": fill.is_some(), "out": out})),
             Err(p) => emit(&mut o, json!({"ev": "panic", "what": "iir", "msg": p})),
+        }
+        // clamped variant: the clamped value is what is fed back
+        let (mi, mx) = (-(1 + rng.below(3) as i64), 1 + rng.below(3) as i64);
+        let nt = 1 + rng.below(3);
+        let taps = ints(&mut rng, nt, -1, 2);
+        let xl = 2 + rng.below(8);
+        let x = ints(&mut rng, xl, -3, 3);
+        let tf: Vec<Float> = taps.iter().map(|v| *v as Float).collect();
+        let r = catch(|| {
+            let mut f = IirFilter::new(&tf);
+            x.iter().map(|v| exact(f.filter_clamped(*v as Float, mi as Float, mx as Float))).collect::<Vec<_>>()
+        });
+        match r {
+            Ok(out) => emit(&mut o, json!({"ev": "iirc", "taps": taps, "x": x, "mi": mi, "mx": mx, "out": out})),
+            Err(p) => emit(&mut o, json!({"ev": "panic", "what": "iirc", "msg": p})),
         }
     }
     // ---- generated taps
